@@ -50,7 +50,8 @@ def optsets_for(prop):
 
 
 def programs_for(prop):
-    ps = progs.corpus(big=True)
+    # programs the unchanged compiler rejects are included on purpose: a change that makes one of them accepted is then verified too
+    ps = progs.corpus(big=True, include_fail=True)
     try:
         from .. import gen
         n = 400 if common.tier() == "thorough" else 60
